@@ -109,6 +109,7 @@ def run(ctx):
     try:
         from . import c01
         ctx.run("C01-L1", "every tour removal is guarded by the locked-jobs set (pinned jobs stay)", c01.l1_locked_guard, floor=10)
+        ctx.run("C01-T2", "every rescheduled departure is bounded by the shift's start window", c01.t2_departure_bounded, floor=2)
     except ImportError:
         pass
     try:
